@@ -5,22 +5,6 @@ From CB Require Import Gen.HostCosts Contract.HostBase Contract.HostBaseProofs C
 Import ListNotations.
 Local Open Scope N_scope.
 
-Ltac unfold_v0 :=
-  unfold accept, simple_transfer, send, combine_and, combine_or, get_parameter_size, get_parameter_section,
-    get_policy_section, log_event, load_state, write_state, resize_state, state_size, get_init_origin,
-    get_receive_invoker, get_receive_self_address, get_receive_self_balance, get_receive_sender,
-    get_receive_owner, get_slot_time, put_address, read_section, out_send, out_combine, push_action,
-    logs_push, st_write_state, st_load_state, st_resize_state.
-Ltac unfold_v1 :=
-  unfold invoke, parse_call_args, upgrade, write_return_value, get_parameter_size1, get_parameter_section1,
-    state_lookup_entry, state_create_entry, state_delete_entry, state_delete_prefix, state_iterator,
-    state_iterator_next, state_iterator_delete, state_iterator_key_size, state_iterator_key_read,
-    state_entry_read, state_entry_write, state_entry_size, state_entry_resize, get_receive_entrypoint_size,
-    get_receive_entrypoint, verify_ed25519_signature, verify_ecdsa_secp256k1_signature, hash_generic.
-
-Ltac split_args args :=
-  destruct args as [|?a [|?a [|?a [|?a [|?a [|?a [|?a [|?a args]]]]]]]].
-
 Ltac arith_close :=
   cbn [negb andb orb] in *; bool_hyps; prim_facts; autorewrite with lenN in *;
   cbv [MAX_CONTRACT_STATE W32 W64 MAX_LOG_SIZE MAX_NUM_LOGS MAX_ENTRY_SIZE MAX_KEY_SIZE N.shiftl Pos.shiftl Pos.iter] in *;
